@@ -25,6 +25,8 @@ type Scenario struct {
 	Check func(ctx context.Context, w *world.World, state any, run *Run) [][2]string
 	// Outcome summarises an execution for the "distinct outcomes" vacuity guard.
 	Outcome func(state any) string
+	// Fault (optional): see Exec.Fault.
+	Fault func(thread, call int, op, sql string) error
 }
 
 type job struct {
@@ -188,6 +190,7 @@ func runOnce(ctx context.Context, sc *Scenario, prefix []int) (*Run, any, *world
 	pg := sc.Base.Clone()
 	w := world.Attach(pg)
 	exec := NewExec(pg, sc.Threads)
+	exec.Fault = sc.Fault
 	w.Hook = exec.Hook
 	bodies, state := sc.New(w)
 	diverged := ""
